@@ -10,3 +10,13 @@ class EntityModelsBounded(NativeBounded):
 
 
 BOUNDED = [EntityModelsBounded()]
+
+
+class ClassificationWiringBounded(NativeBounded):
+    property_ids = ["C12", "C11", "C02", "C03"]
+    module = "contracts.connect_native"
+    func = "bounded_classification_wiring"
+    what = "mosaik.scenario.ModelMock.__init__ / input_attrs / output_attrs, Entity.triggered_by / is_persistent (the wiring around parse_attrs)"
+
+
+BOUNDED.append(ClassificationWiringBounded())
